@@ -424,7 +424,11 @@ func (p *Prog) guardMap() map[string][]string {
 }
 
 // SMT renders the script for one obligation.
-func (o *Obligation) SMT(s *Script, getModel bool) string {
+func (o *Obligation) SMT(s *Script, getModel bool) string { return o.SMTGoal(s, getModel, -1) }
+
+// SMTGoal renders the script for goal number only of the obligation (only < 0: all goals, as one
+// disjunction). The obligation holds iff the script of every single goal is unsatisfiable.
+func (o *Obligation) SMTGoal(s *Script, getModel bool, only int) string {
 	var sb strings.Builder
 	sb.WriteString(preamble)
 	for _, d := range s.decls {
@@ -440,7 +444,10 @@ func (o *Obligation) SMT(s *Script, getModel bool) string {
 		sb.WriteString("\n")
 	}
 	var gs []Term
-	for _, g := range o.Goals {
+	for i, g := range o.Goals {
+		if only >= 0 && i != only {
+			continue
+		}
 		gs = append(gs, and(g.Reach, not(g.Cond)))
 	}
 	sb.WriteString("(assert " + or(gs...) + ")\n(check-sat)\n")
